@@ -85,7 +85,7 @@ var _ = reserr.ErrAccessDenied
 //@   trusted
 //@   ensures forall x *Subscription :: x.direct == old(x.direct)
 //@   assigns Subscription.state, Subscription.indirectsent, Subscription.indirect, Subscription.readyCallbacks,
-//@       Subscription.eventQueue, Subscription.throttle, Subscription.resourceSub, Subscription.refs, elems(c.subs), pkgstate(rescache), funcqueues()
+//@       Subscription.eventQueue, Subscription.throttle, Subscription.resourceSub, Subscription.refs, elems(c.subs), pkgstate(rescache), cachecontainers()
 
 //@ func (*wsConn).addCount
 //@   requires s != nil
@@ -106,7 +106,7 @@ var _ = reserr.ErrAccessDenied
 //@   ensures !tryDelete ==> (forall e *rescache.EventSubscription :: e.queue == old(e.queue))
 //@   ensures !tryDelete ==> (forall k *wsConn, r string :: has(k.subs, r) == old(has(k.subs, r)) && k.subs[r] == old(k.subs[r]))
 //@   assigns s.direct, s.indirect, s.indirectsent, Subscription.state, Subscription.indirectsent, Subscription.indirect, Subscription.readyCallbacks,
-//@       Subscription.eventQueue, Subscription.throttle, Subscription.resourceSub, Subscription.refs, elems(c.subs), pkgstate(rescache), funcqueues()
+//@       Subscription.eventQueue, Subscription.throttle, Subscription.resourceSub, Subscription.refs, elems(c.subs), pkgstate(rescache), cachecontainers()
 //@   safety[C15]
 
 // UnsubscribeByRID succeeds exactly when the connection is live, the rid is subscribed and its
@@ -148,7 +148,7 @@ var _ = reserr.ErrAccessDenied
 
 //@ func (*wsConn).Access
 //@   defers cb
-//@   assigns pkgstate(rescache), funcqueues()
+//@   assigns pkgstate(rescache), cachecontainers()
 //@   requires predConnOK(c) && s != nil
 //@   resolves[C07] cb exactly-once
 //@   callback cb requires[C04] arg0 != nil && (arg0.Error != nil || arg0.AccessResult != nil)
@@ -169,7 +169,7 @@ var _ = reserr.ErrAccessDenied
 
 //@ closure (*Subscription).loadAccess#1
 //@   requires s != nil && s.c != nil && predConnOK(s.c.(*wsConn))
-//@   assigns pkgstate(rescache), funcqueues()
+//@   assigns pkgstate(rescache), cachecontainers()
 //@   safety[C15]
 
 //@ func (*Subscription).CanGet
@@ -334,7 +334,9 @@ var _ = reserr.ErrAccessDenied
 // What stays untouched while only access bookkeeping of subscriptions changes.
 //@ define predSubsStable() bool = (forall x *Subscription :: x.direct == old(x.direct) && x.state == old(x.state)) &&
 //@     (forall k *wsConn, r string :: has(k.subs, r) == old(has(k.subs, r)) && k.subs[r] == old(k.subs[r])) &&
-//@     (forall k *wsConn :: k.subs == old(k.subs) && k.disposing == old(k.disposing) && k.token == old(k.token) && k.tid == old(k.tid) && k.ws == old(k.ws))
+//@     (forall k *wsConn :: k.subs == old(k.subs) && k.disposing == old(k.disposing) && k.token == old(k.token) && k.tid == old(k.tid) && k.ws == old(k.ws)) &&
+//@     (forall x *Subscription :: x.resourceSub == old(x.resourceSub) && x.eventQueue == old(x.eventQueue)) &&
+//@     (forall x *Subscription :: backing(x.eventQueue) == old(backing(x.eventQueue)))
 
 // unsubscribeDirect: with direct subscriptions (and a live connection) all of them are removed
 // in one step and exactly one unsubscribe event frame is written; without, nothing happens.
@@ -345,7 +347,7 @@ var _ = reserr.ErrAccessDenied
 //@   ensures[C06,C08] old(s.direct) > 0 && old(s.c.(*wsConn).ws) != nil ==> wsframes == old(wsframes) + 1
 //@   ensures[C06,C08] old(s.direct) <= 0 ==> wsframes == old(wsframes) && (forall x *Subscription :: x.direct == old(x.direct))
 //@   assigns wsframes, Subscription.direct, Subscription.state, Subscription.indirectsent, Subscription.indirect, Subscription.readyCallbacks,
-//@       Subscription.eventQueue, Subscription.throttle, Subscription.resourceSub, Subscription.refs, elems(s.c.(*wsConn).subs), pkgstate(rescache), funcqueues()
+//@       Subscription.eventQueue, Subscription.throttle, Subscription.resourceSub, Subscription.refs, elems(s.c.(*wsConn).subs), pkgstate(rescache), cachecontainers()
 //@   safety[C15]
 
 //@ func (*Subscription).validateAccess
@@ -356,7 +358,7 @@ var _ = reserr.ErrAccessDenied
 //@   ensures[C06] old(a.Error == nil && a.Get) ==> wsframes == old(wsframes) && (forall x *Subscription :: x.direct == old(x.direct))
 //@   ensures[C06] old(s.direct) <= 0 ==> wsframes == old(wsframes) && (forall x *Subscription :: x.direct == old(x.direct))
 //@   assigns wsframes, Subscription.direct, Subscription.state, Subscription.indirectsent, Subscription.indirect, Subscription.readyCallbacks,
-//@       Subscription.eventQueue, Subscription.throttle, Subscription.resourceSub, Subscription.refs, elems(s.c.(*wsConn).subs), pkgstate(rescache), funcqueues()
+//@       Subscription.eventQueue, Subscription.throttle, Subscription.resourceSub, Subscription.refs, elems(s.c.(*wsConn).subs), pkgstate(rescache), cachecontainers()
 //@   safety[C15]
 
 // handleReaccess: the cached verdict is dropped; with direct subscriptions the event queue is
@@ -365,7 +367,7 @@ var _ = reserr.ErrAccessDenied
 //@   requires s != nil && s.c != nil && predConnOK(s.c.(*wsConn))
 //@   requires t != nil ==> rescache.predThrottleInv(t)
 //@   assumes predCountsOK()
-//@   ensures[C06] s.access == nil && s.flags & flagReaccess == 0
+//@   ensures[C04,C05,C06] s.access == nil && s.flags & flagReaccess == 0
 //@   ensures[C06] old(s.direct) == 0 ==> s.queueFlag == old(s.queueFlag) && s.accessCallbacks == old(s.accessCallbacks)
 //@   ensures[C06] predSubsStable()
 //@   ensures[C06] forall x *Subscription :: x != s ==> x.access == old(x.access) && x.flags == old(x.flags)
@@ -377,9 +379,38 @@ var _ = reserr.ErrAccessDenied
 //@   assert[C06] s.unqueueEvents#1: (!(a.Error == nil && a.Get) && !s.c.(*wsConn).disposing) ==> s.direct <= 0
 //@   safety[C15]
 
-//@ func (*Subscription).unqueueEvents
+// Event processing itself (reference bookkeeping, resource sets) is not under contract.
+//@ func (*Subscription).processEvent
 //@   trusted
-//@   requires s != nil
+//@   requires s != nil && event != nil
+
+// unqueueEvents: while another hold reason remains nothing is released; a deferred re-access is
+// handled before any held event; a held event is processed only while no hold reason is set.
+//@ func (*Subscription).unqueueEvents
+//@   requires s != nil && s.c != nil && predConnOK(s.c.(*wsConn))
+//@   assumes predCountsOK() && (forall k int :: 0 <= k && k < len(s.eventQueue) ==> s.eventQueue[k] != nil)
+//@   ensures[C03,C06] old(s.queueFlag & ^reason) != 0 ==> s.queueFlag == old(s.queueFlag) & ^reason && s.eventQueue == old(s.eventQueue) &&
+//@       callcount("processEvent") == old(callcount("processEvent")) && callcount("handleReaccess") == old(callcount("handleReaccess"))
+//@   assert[C06] s.handleReaccess#1: s.queueFlag == 0 && callcount("processEvent") == old(callcount("processEvent"))
+//@   assert[C03,C06] s.processEvent#1: s.queueFlag == 0
+//@   safety[C15]
+//@   loop 1 invariant s.queueFlag == 0
+//@   loop 1 invariant forall k int :: 0 <= k && k < len(eq) ==> eq[k] != nil
+
+// Event (run by the connection worker): reaccess is handled even before the resource is loaded;
+// other events are dropped until the resource is loaded, appended at the tail of the hold queue
+// while any hold reason is set, and otherwise processed at once.
+//@ closure (*Subscription).Event#1
+//@   requires s != nil && s.c != nil && predConnOK(s.c.(*wsConn)) && event != nil
+//@   assumes predCountsOK()
+//@   ensures[C03] event.Event != "reaccess" && old(s.resourceSub) == nil ==> s.eventQueue == old(s.eventQueue) && callcount("processEvent") == old(callcount("processEvent"))
+//@   ensures[C03,C06] event.Event != "reaccess" && old(s.resourceSub) != nil && old(s.queueFlag) != 0 ==>
+//@       callcount("processEvent") == old(callcount("processEvent")) && len(s.eventQueue) == old(len(s.eventQueue)) + 1 &&
+//@       s.eventQueue[len(s.eventQueue)-1] == event &&
+//@       (forall k int :: 0 <= k && k < old(len(s.eventQueue)) ==> s.eventQueue[k] == old(s.eventQueue[k]))
+//@   ensures[C03] event.Event != "reaccess" && old(s.resourceSub) != nil && old(s.queueFlag) == 0 ==> callcount("processEvent") == old(callcount("processEvent")) + 1
+//@   ensures[C06] event.Event == "reaccess" ==> callcount("processEvent") == old(callcount("processEvent")) && s.eventQueue == old(s.eventQueue)
+//@   safety[C15]
 
 // reaccess: a disposed subscription ignores it; while the event queue is held the re-access is
 // deferred (flagReaccess) and nothing else changes; otherwise it is handled now.
